@@ -28,7 +28,7 @@ def contract(expression: Expression) -> Expression:
         and not expression.denominator.parents
         # both must be probabilities of the same kind, in the same population
         and expression.numerator._new(expression.denominator.distribution) == expression.denominator
-        and set(expression.denominator.children).issubset(expression.numerator.children)
+        and set(expression.denominator.children) < set(expression.numerator.children)
     ):
         return expression
     children = set(expression.numerator.children).difference(expression.denominator.children)
